@@ -574,6 +574,19 @@ func TestC05(t *testing.T) {
 		}
 	}
 	compare("plain", baseEnv, dir, "-reps", "2")
+	// environment variables named by string literals in zlint's own sources: os.Getenv is
+	// not a system call, so every upper-case identifier-like literal in the lint, util and
+	// framework packages is set (two different values) and the verdicts must not move
+	if names := harvestEnvNames(); len(names) > 0 {
+		rec.ClassN("harvested_env_names", int64(len(names)))
+		for _, val := range []string{"1", "/nonexistent/verif"} {
+			env := append([]string{}, baseEnv...)
+			for _, n := range names {
+				env = append(env, n+"="+val)
+			}
+			compare("harvested-names="+val, env, dir)
+		}
+	}
 	zonesEnv := []string{"UTC", "Asia/Kolkata", "America/New_York", "Pacific/Kiritimati", "Antarctica/Troll", ":/nonexistent", ""}
 	rapidRun(t, "environments", stats.Scale(6, 40), func(rt *rapid.T) {
 		env := []string{"PATH=/usr/bin:/bin"}
@@ -644,6 +657,46 @@ func TestC05(t *testing.T) {
 			t.Errorf("c05: I/O during linting: %v", ns)
 		}
 	}
+}
+
+var envNameRe = regexp.MustCompile(`^[A-Z][A-Z0-9_]{2,40}$`)
+
+// harvestEnvNames collects string literals that look like environment
+// variable names from the non-test sources of zlint's library packages.
+func harvestEnvNames() []string {
+	seen := map[string]bool{}
+	root := gen.RepoV3()
+	_ = filepath.Walk(root, func(p string, info os.FileInfo, err error) error {
+		if err != nil {
+			return nil
+		}
+		if info.IsDir() {
+			b := filepath.Base(p)
+			if b == "testdata" || b == "cmd" || b == "integration" || b == "test" {
+				return filepath.SkipDir
+			}
+			return nil
+		}
+		if !strings.HasSuffix(p, ".go") || strings.HasSuffix(p, "_test.go") || strings.HasSuffix(p, "gtld_map.go") {
+			return nil
+		}
+		b, err := os.ReadFile(p)
+		if err != nil {
+			return nil
+		}
+		for _, m := range regexp.MustCompile("\"([A-Za-z0-9_]{3,41})\"").FindAllSubmatch(b, -1) {
+			if envNameRe.Match(m[1]) {
+				seen[string(m[1])] = true
+			}
+		}
+		return nil
+	})
+	var out []string
+	for n := range seen {
+		out = append(out, n)
+	}
+	sort.Strings(out)
+	return out
 }
 
 func lintParsed(k gen.Kind, obj interface{}, reg lint.Registry) *zlint.ResultSet {
